@@ -50,7 +50,9 @@ type Arm struct {
 }
 
 type Stmt struct {
-	Kind    string // block decl set emit if case while repeat loop leave iterate signal
+	Kind    string // block decl set emit if case while repeat loop leave iterate signal handler
+	Exit     bool  // handler: EXIT (else CONTINUE)
+	NotFound bool  // handler: FOR NOT FOUND (else SQLEXCEPTION)
 	Label   int    // -1 = none
 	X       int
 	Dflt    *int64
@@ -167,6 +169,8 @@ func (s *Stmt) Sexp() string {
 		return fmt.Sprintf("(iterate %d)", s.Label)
 	case "signal":
 		return "(signal)"
+	case "handler":
+		return fmt.Sprintf("(handler %s %s %d %s)", handlerAct(s), strings.ReplaceAll(strings.ToLower(handlerCond(s)), " ", ""), s.X, s.E.Sexp())
 	}
 	panic("kind " + s.Kind)
 }
@@ -234,6 +238,8 @@ func (s *Stmt) SQL() string {
 		return fmt.Sprintf("ITERATE l%d", s.Label)
 	case "signal":
 		return "SIGNAL SQLSTATE '45000'"
+	case "handler":
+		return fmt.Sprintf("DECLARE %s HANDLER FOR %s SET v%d = %s", strings.ToUpper(handlerAct(s)), handlerCond(s), s.X, s.E.SQL())
 	}
 	panic("kind " + s.Kind)
 }
@@ -250,6 +256,7 @@ type Arg struct {
 }
 
 type Case struct {
+	H      bool // handler case: label-free body with DECLARE … HANDLER, sent to the model of ProcHandler.lean (head hproc)
 	Params []Param
 	Body   *Stmt // outermost statement (a block)
 	Uvars  []*int64
@@ -286,7 +293,11 @@ func (c *Case) Sexp() string {
 	if staleIntoClosedBlock(c.Body) {
 		flag = " (norun)"
 	}
-	return "(proc (params" + sp(strings.Join(ps, " ")) + ") (body " + c.Body.Sexp() + ") (uvars" + sp(strings.Join(us, " ")) +
+	head := "(proc"
+	if c.H {
+		head = "(hproc"
+	}
+	return head + " (params" + sp(strings.Join(ps, " ")) + ") (body " + c.Body.Sexp() + ") (uvars" + sp(strings.Join(us, " ")) +
 		") (calls" + sp(strings.Join(cs, " ")) + ")" + flag + ")"
 }
 
@@ -442,8 +453,8 @@ func run(a hx.RunArgs) error {
 	out := hx.NewOut(a.OutDir)
 	defer out.Close()
 	out.Rule = "generated procedure bodies (nested BEGIN…END with DECLARE, SET, IF/ELSEIF/ELSE, CASE with and without ELSE, WHILE/REPEAT/LOOP with LEAVE/ITERATE (a third of the LOOP bodies are one BEGIN…END block), " +
-		"SIGNAL, a trace INSERT) with 0-3 IN/OUT/INOUT parameters and 1-2 CALLs in one session; observation = real procedures.Parse op list + " +
-		"CALL outcome class, user variables and trace rows; a case is non-trivial when the body has a loop or a LEAVE/ITERATE and at least one trace row or OUT value was produced"
+		"SIGNAL, a trace INSERT) with 0-3 IN/OUT/INOUT parameters and 1-2 CALLs in one session; handler cases (a quarter of the stream): label-free bodies whose blocks declare EXIT/CONTINUE handlers for SQLEXCEPTION/NOT FOUND (statement: SET), conditions raised by SIGNAL and CASE without a matching arm in the handler's block, in nested blocks, IF arms and WHILE bodies, with statements behind the failing statement, the nested block and the handler's block; observation = real procedures.Parse op list + " +
+		"CALL outcome class, user variables and trace rows; a case is non-trivial when the body has a loop or a LEAVE/ITERATE (handler cases: a condition raised under an SQLEXCEPTION handler) and at least one trace row or OUT value was produced"
 	r := hx.NewRand(a.Seed)
 	rn := newRunner()
 
@@ -459,6 +470,12 @@ func run(a hx.RunArgs) error {
 		}
 		feat := features(c.Body)
 		nontriv := (feat["loop"] || feat["jump"]) && strings.ContainsAny(runObs, "0123456789")
+		if c.H {
+			for k := range hfeatures(c.Body) {
+				feat["h:"+k] = true
+			}
+			nontriv = (feat["h:raise-in-nested-block"] || feat["h:raise-in-handler-block"]) && strings.ContainsAny(runObs, "0123456789")
+		}
 		// see norun.go: run level outside the model ⇒ compile-level correspondence + oracle only
 		norun := staleIntoClosedBlock(c.Body)
 		sent := runObs
@@ -488,13 +505,22 @@ func run(a hx.RunArgs) error {
 	for _, c := range corpus() {
 		one(c, "corpus")
 	}
+	for _, c := range hcorpus() {
+		one(c, "hcorpus")
+	}
 	n := 1200
 	if a.Thorough {
 		n = 30000
 	}
+	// handler cases draw from their own stream so that the proc cases of a seed stay what they were
+	hr := hx.NewRand(a.Seed*7919 + 17).Fork()
 	for i := 0; i < n; i++ {
 		g := &gen{r: r}
 		one(g.genCase(), "random")
+		if i%3 == 0 {
+			hg := &hgen{gen: &gen{r: hr}}
+			one(hg.genCase(), "hrandom")
+		}
 	}
 	return nil
 }
